@@ -34,7 +34,7 @@ RULE = (
 ASSUMPTIONS = [
     "reference order of the product set: first domain slowest, last domain fastest (the documented nested-loop order)",
     "integrands are pure functions of their arguments returning finite floats; the vectorised integrand returns an array over the points of the LAST domain",
-    "chunk sizes are positive integers (chunk size 0 silently yields 0.0 - recorded as observation, inadmissible by the docstring)",
+    "chunk sizes are positive integers (integration_chunk_size=0 is inadmissible; on the present tree it silently returns 0.0 - seen once by hand, deliberately NOT part of the workload: a mutant of the chunk iterator never terminates for it)",
 ]
 LEVEL_TEXT = "Every integrate call of the workload is decided against an explicit long-double nested sum over the enumerated product set; all routes (vectorised / point-by-point x 8-9 chunk sizes) per case; 1-4 domains of mixed point dimension; repeated-grid mode 1-4."
 TECHNIQUE = "runtime monitoring: post-conditions on MultiDomainGrid.integrate/size/points/weights/num_domains with a brute-force product-set reference and an invocation-counting integrand wrapper"
@@ -48,14 +48,14 @@ _memo = []  # [(mg, raw, doms, S, A)] most recent first
 def cases(tier, seed):
     out = []
     q = tier == "quick"
-    for k in range(6 if q else 100):
+    for k in range(6 if q else 200):
         for D in (1, 2, 3, 4):
             for kind in ("separable", "coupled", "oscillating"):
                 out.append(("product", {"D": D, "integrand": kind, "k": k}, 1.0 + 3.0 ** D / 8))
                 out.append(("repeated", {"D": D, "integrand": kind, "k": k}, 1.0 + 3.0 ** D / 8))
     for k in range(6 if q else 96):
         out.append(("default-chunk", {"D": 2 + k % 3, "repeat": bool(k % 4 == 3), "k": k}, 40.0))
-    for what in ("single-point-domains", "zero-weights", "signed-weights", "same-grid-listed", "numpy-int-num-domains", "num-domains-one", "python-float-integrand", "chunk-zero", "huge-chunk"):
+    for what in ("single-point-domains", "zero-weights", "signed-weights", "same-grid-listed", "numpy-int-num-domains", "num-domains-one", "python-float-integrand", "huge-chunk"):
         for k in range(2 if q else 20):
             out.append(("hostile", {"what": what, "k": k}, 2.0))
     return out
@@ -359,11 +359,10 @@ def _domain(rng, kind, size):
     if kind == "3d":
         return Grid(rng.normal(size=(size, 3)), w), 3
     if kind == "gausslegendre":
-        return onedgrid.GaussLegendre(size), 0
+        return onedgrid.GaussLegendre(max(size, 2)), 0  # rules are defined for npoints >= 2
     if kind == "onedrule":
         cls = [onedgrid.GaussChebyshev, onedgrid.Trapezoidal, onedgrid.MidPoint, onedgrid.GaussChebyshevType2][int(rng.integers(0, 4))]
-        n = max(size, 2) if cls is onedgrid.Trapezoidal else size
-        return cls(n), 0
+        return cls(max(size, 2)), 0  # these rules are defined for npoints >= 2
     if kind == "angular6":
         return AngularGrid(degree=3, method="lebedev"), 3
     if kind == "uniform2d":
@@ -592,16 +591,6 @@ def _hostile(ctx, params):
         for ch in _chunks(int(mg.size)):
             with ctx.guard("integral-equals-nested-sum", f"integrate[point-by-point,D={D},list]"):
                 mg.integrate(plain, non_vectorized=True, integration_chunk_size=ch)
-    elif what == "chunk-zero":
-        g, d = _domain(rng, "flat1d", 4)
-        mg = MultiDomainGrid([g, g])
-        f = Integrand(rng, [d, d], "coupled")
-        try:
-            r = mg.integrate(f, non_vectorized=True, integration_chunk_size=0)
-            ctx.observe("integration_chunk_size=0 is accepted and returns 0.0 without evaluating the integrand", value=float(r))
-        except Exception as exc:
-            ctx.count(f"chunk size 0 rejected: {type(exc).__name__}")
-        _exercise(ctx, mg, [g, g], [d, d], ["coupled"], chunks=[5])
     elif what == "huge-chunk":
         grids, dims = [], []
         for s in _sizes(rng, D, 500):
